@@ -212,6 +212,13 @@ pub fn do_send(w: &mut World, ctx: &mut Ctx, spec: &OpSpec) -> Result<Op, Fail> 
         len = max_mem.saturating_sub(ctx.src.pick(&[0usize, 1, 1199, 1200, 1201]));
         ctx.label("budget_sized_msg");
     }
+    // now and then the transport mirrors its status into the client the way the netcode transport does (connecting while a
+    // handshake is repeated, connected again right after): a status call never touches queued or transmitted messages
+    if ctx.src.chance(5) && !w.clients[d.client].is_disconnected() {
+        w.clients[d.client].set_connecting();
+        w.clients[d.client].set_connected();
+        ctx.label("status_toggled");
+    }
     // now and then exactly what the channel has left (the budget is inclusive: a message that fills it to the byte is accepted
     // by the sender and must be by the receiver)
     if ctx.src.chance(8) {
